@@ -124,3 +124,26 @@ def deleted_means_recycled_or_tombstone(ctx):
               f"post_repl_incremental decides which entries became deleted with {sorted({callee_of(c).rsplit('::', 1)[-1] for c in partial}) or 'fewer than two mask_recycled_ts tests'}"
               f" (mask_recycled_ts calls: {len(full)}): an entry that arrives already tombstoned (or recycled) is not treated as deleted, remove_references is not run for it "
               "and live entries keep pointing at it", file=fn["file"], line=(partial[0] if partial else fn).get("line"))
+
+
+# ---------------------------------------------------------------------------------------------------------------------
+# "A write that would create such a reference is refused": the plugin's fast existence test must hold for every referenced
+# uuid separately. An Inclusion term (f_inc) yields the union of its terms once every term matched something - the uuid
+# index also lists recycled entries - and the hidden-entry exclusion that filter! wraps around it is subtracted from that
+# union afterwards. One live uuid therefore vouches for any number of recycled ones (finding F18).
+
+def existence_test_is_per_reference(ctx):
+    from .lib.hir import all_calls, callee_of
+    R_ = "K4-reference-existence-per-uuid"
+    names = [n for n in ctx.facts.fn_names("kanidmd_lib") if n.endswith("ReferentialIntegrity::check_uuids_exist_fast")]
+    if not ctx.check(len(names) == 1, R_, "kanidmd_lib::plugins::refint", "fast-check-found", "check_uuids_exist_fast found",
+                     f"expected one check_uuids_exist_fast, found {len(names)} (anchor drift)"):
+        return
+    fn = ctx.fn("kanidmd_lib", names[0])
+    cs = {callee_of(c).rsplit("::", 1)[-1] for c in all_calls(fn["body"])}
+    union_under_hidden = "f_inc" in cs and "new_ignore_hidden" in cs and "internal_exists" in cs
+    ctx.check(not union_under_hidden, R_, fn["fn"], "inclusion-under-ignore-hidden",
+              "existence is established per referenced uuid",
+              "check_uuids_exist_fast asks internal_exists for filter!(f_inc(uuid terms)): the Inclusion is satisfied when every uuid matches *some* entry (recycled ones included) "
+              "and the recycled/tombstone exclusion is applied to the union, so a write that references one live and one recycled entry is accepted",
+              file=fn["file"], line=fn["line"])
